@@ -1027,3 +1027,10 @@ pub mod verif_hooks {
             .await
     }
 }
+
+/// Verification hooks for the roto-filter property C10 (feature
+/// `verif-hooks`, add-only); a child module because `process_msg` and the
+/// handler's fields are private to this module.
+#[cfg(feature = "verif-hooks")]
+#[path = "verif_hooks_c10.rs"]
+pub mod verif_hooks_c10;
